@@ -249,7 +249,7 @@ def body_cli(case, rec):
 
 
 SUBS = [
-    Sub("api", kind="hyp", strategy=gen.tagged_case, body=body_api,
+    Sub("api", kind="hyp", strategy=lambda: st.builds(lambda c, k: dict(c, retagged_after_review=True) if k == 0 else c, gen.tagged_case(), st.integers(0, 5)), body=body_api,
         budget={"quick": 16000, "thorough": 300000}, desc="dict returned by assemblies_with_scaffolds_fused vs expected destination per piece"),
     Sub("reuse", kind="hyp", strategy=reuse_cases, body=body_reuse,
         budget={"quick": 4000, "thorough": 60000}, desc="the same IndexedAssembly object remapped twice (first in Target mode with scaffolds absent, then with the case's map): the second result is judged"),
